@@ -53,3 +53,58 @@ def mat_set(config, cwd=None, catalogue=None):
     finally:
         pd.read_sql_query = orig_read
         os.chdir(old)
+
+
+# ---------------------------------------------------------------- CLI and parser-level entry points
+def cli_run(config, cwd, outputs=None, timeout=120, env_extra=None, argv_config='config.ini'):
+    """Runs `python -m morph_kgc config.ini` in cwd.  Returns rc, the log text, and every regular file below the
+    output locations (relative path -> text)."""
+    import subprocess
+    with open(os.path.join(cwd, argv_config), 'w', encoding='utf-8') as f:
+        f.write(config)
+    env = dict(os.environ)
+    env.update(env_extra or {})
+    p = subprocess.run([sys.executable, '-m', 'morph_kgc', argv_config], cwd=cwd, capture_output=True, text=True, timeout=timeout, env=env)
+    return {'rc': p.returncode, 'log': (p.stdout + p.stderr)[-4000:], 'files': snapshot(cwd, outputs)}
+
+
+def snapshot(cwd, roots=None):
+    out = {}
+    for root in (roots or ['.']):
+        base = os.path.join(cwd, root)
+        if os.path.isfile(base):
+            out[root] = open(base, encoding='utf-8', errors='surrogateescape', newline='').read()
+            continue
+        for dp, dn, fn in os.walk(base):
+            for f in fn:
+                full = os.path.join(dp, f)
+                rel = os.path.relpath(full, cwd)
+                try:
+                    out[rel] = open(full, encoding='utf-8', errors='surrogateescape', newline='').read()
+                except Exception as e:
+                    out[rel] = '<unreadable %s>' % type(e).__name__
+            for d in dn:
+                out[os.path.relpath(os.path.join(dp, d), cwd) + '/'] = ''
+    return out
+
+
+def rules_of(config, cwd=None):
+    """retrieve_mappings: the normalised rule table with its mapping_partition column, as a list of dicts."""
+    import pandas as pd
+    old = os.getcwd()
+    try:
+        if cwd:
+            os.chdir(cwd)
+        try:
+            from morph_kgc.args_parser import load_config_from_argument
+            from morph_kgc.mapping.mapping_parser import retrieve_mappings
+            cfg = load_config_from_argument(config)
+            rml_df, fnml_df = retrieve_mappings(cfg)
+            rows = []
+            for _, r in rml_df.iterrows():
+                rows.append({k: (None if (not isinstance(v, str) and pd.isna(v)) else str(v)) for k, v in r.items()})
+            return {'rules': rows}
+        except Exception as e:
+            return _bucket(e)
+    finally:
+        os.chdir(old)
